@@ -195,15 +195,22 @@ def progHeldPanic : Code :=
   .call (.defer (.recover true .done) (.lit 0) (.deferVar (.setOuter 9 .done) (.lit 0) (.panic (.str "x") .done)))
     (.lit 0) true .done
 
-/-- regression for F06-2 (fixed): Eval returns; before the repair (frame lock held around the deferred calls) the
-    wrapper of the held literal blocked on it after the call: the output stops after `h`, Eval never returns -/
+/-- regression for F06-2 (fixed twice: 2e388d6 releases the frame lock around the deferred calls, d26dd9e removes the
+    lock from the wrapper of the held literal): Eval returns; before (lock held around the deferred calls AND taken by
+    the wrapper after the call) the wrapper blocked: the output stops after `h`, Eval never returns -/
 example :
     runY facts 3 progHeld = ⟨[.print "body", .print "h"], .ok, true⟩ ∧
     Spec.run 3 progHeld = ⟨[.print "body", .print "h"], .ok, true⟩ ∧
     runY facts 4 progHeldPanic = ⟨[.recd (some (.str "x")), .ret 9], .ok, true⟩ ∧
     Spec.run 4 progHeldPanic = ⟨[.recd (some (.str "x")), .ret 9], .ok, true⟩ ∧
+    runY { facts with closureLocksDefiner := true,
+                      exitSteps := [.lock, .assignRecovered, .runDeferred, .ifRecovered, .unlock] } 3 progHeld =
+      ⟨[.print "body", .print "h"], .hang, false⟩ ∧
+    -- each of the two repairs is enough on its own: the lock released around the deferred calls (2e388d6) …
+    runY { facts with closureLocksDefiner := true } 3 progHeld = ⟨[.print "body", .print "h"], .ok, true⟩ ∧
+    -- … or a wrapper that does not lock the defining frame (d26dd9e)
     runY { facts with exitSteps := [.lock, .assignRecovered, .runDeferred, .ifRecovered, .unlock] } 3 progHeld =
-      ⟨[.print "body", .print "h"], .hang, false⟩ := by decide
+      ⟨[.print "body", .print "h"], .ok, true⟩ := by decide
 
 /-- F06-7 (open) `h := func(){ fmt.Println("rec", recover()) }; defer h(); panic("x")` -/
 def progHeldRec : Code := .deferVar (.recover true .done) (.lit 0) (.panic (.str "x") .done)
